@@ -74,41 +74,44 @@ proof fn lemma_header_attrs_ok()
     {'op': 'fn', 'path': 'IppAttributes::add', 'attrs': ['#[verifier::external_body]'],
      'spec': '''    ensures abs_groups(*final(self)) == spec_add(abs_groups(*old(self)), tag, attribute.sname(), aval(attribute.sval())),'''},
     {'op': 'fn', 'path': 'IppAttributes::to_bytes', 'ret': 'r',
-     'spec': '''    requires groups_wf(self.sgroups()),
-    ensures exists|ops: Seq<String>, others: Seq<(int, Seq<String>)>| attrs_enc_ok(self.sgroups(), buf_seq(&r), ops, others),''',
+     # no panic / overflow for every message whose values are encodable at all (groups_sizes: usize sums of string lengths);
+     # the functional statement holds in the domain of C01/C03 (groups_wf)
+     'spec': '''    requires groups_sizes(self.sgroups()),
+    ensures groups_wf(self.sgroups()) ==>
+        exists|ops: Seq<String>, others: Seq<(int, Seq<String>)>| attrs_enc_ok(self.sgroups(), buf_seq(&r), ops, others),''',
      'loops': {
          0: {'iter_name': 'it1', 'spec': '''
                 invariant
-                    m == group.sattrs(), attrs_wf(m), hs == IppAttribute::HEADER_ATTRS@,
+                    m == group.sattrs(), attrs_sizes(m), wf ==> attrs_wf(m), hs == IppAttribute::HEADER_ATTRS@,
                     it1.snapshot@.remaining().len() == hs.len(),
                     forall|q: int| 0 <= q < hs.len() ==> *(#[trigger] it1.snapshot@.remaining()[q]) == hs[q],
-                    buf_seq(&buffer) == s1(0x01) + keys_enc(m, ops, ops.len()),
-                    loop1_inv(m, hs, ops, qs, it1.index@),
+                    wf ==> buf_seq(&buffer) == s1(0x01) + keys_enc(m, ops, ops.len()),
+                    wf ==> loop1_inv(m, hs, ops, qs, it1.index@),
 '''},
          2: {'iter_name': 'it3', 'spec': '''
             invariant
-                gs == self.sgroups(), groups_wf(gs),
+                gs == self.sgroups(), groups_sizes(gs), wf == groups_wf(gs),
                 forall|i: int| 0 <= i < it3.snapshot@.remaining().len() ==> from_groups(gs, *(#[trigger] it3.snapshot@.remaining()[i])),
-                buf_seq(&buffer) == pre + others_enc(gs, others, others.len()),
-                others_ok(gs, others),
+                wf ==> buf_seq(&buffer) == pre + others_enc(gs, others, others.len()),
+                wf ==> others_ok(gs, others),
 '''},
      },
      'w8': [
          {'loop': 1, 'kind': 'values', 'iter_name': 'it2', 'spec': '''
                 invariant
-                    m == group.sattrs(), attrs_wf(m), hs == IppAttribute::HEADER_ATTRS@, hdrs_ok(hs),
+                    m == group.sattrs(), attrs_sizes(m), wf ==> attrs_wf(m), hs == IppAttribute::HEADER_ATTRS@, hdrs_ok(hs),
                     iter_facts(m, it2.snapshot@.remaining()),
-                    buf_seq(&buffer) == s1(0x01) + keys_enc(m, ops, ops.len()),
-                    loop1_inv(m, hs, ops1, qs, hs.len() as int),
-                    loop2_inv(m, ops1, iter_keys(it2.snapshot@.remaining()), ops, ps, it2.index@),
+                    wf ==> buf_seq(&buffer) == s1(0x01) + keys_enc(m, ops, ops.len()),
+                    wf ==> loop1_inv(m, hs, ops1, qs, hs.len() as int),
+                    wf ==> loop2_inv(m, ops1, iter_keys(it2.snapshot@.remaining()), ops, ps, it2.index@),
 '''},
          {'loop': 3, 'kind': 'values', 'iter_name': 'it4', 'spec': '''
                 invariant
-                    mg == group.sattrs(), attrs_wf(mg),
+                    mg == group.sattrs(), attrs_sizes(mg), wf ==> attrs_wf(mg),
                     iter_facts(mg, it4.snapshot@.remaining()),
-                    cur =~= iter_keys(it4.snapshot@.remaining()).take(it4.index@),
-                    it4.index@ == it4.snapshot@.remaining().len() ==> key_perm(cur, mg),
-                    buf_seq(&buffer) == base + s1(group.stag() as u8) + keys_enc(mg, cur, cur.len()),
+                    wf ==> cur =~= iter_keys(it4.snapshot@.remaining()).take(it4.index@),
+                    wf && it4.index@ == it4.snapshot@.remaining().len() ==> key_perm(cur, mg),
+                    wf ==> buf_seq(&buffer) == base + s1(group.stag() as u8) + keys_enc(mg, cur, cur.len()),
 '''},
      ],
      'closures': {0: {'expect_params': '|group|', 'types': {'group': '&&IppAttributeGroup'}, 'ret': 'b: bool',
@@ -116,6 +119,7 @@ proof fn lemma_header_attrs_ok()
      'proofs': [
          {'at_start': True, 'text': '''broadcast use crate::verif_lemmas::group_ipp_attrs;
         let ghost gs = self.sgroups();
+        let ghost wf = groups_wf(gs);
         let ghost i0 = first_op(gs);
         #[verifier::prophetic]
         let ghost mut ops: Seq<String> = Seq::empty();
@@ -131,15 +135,17 @@ proof fn lemma_header_attrs_ok()
          {'loop': 0, 'where': 'body_start', 'text': '''
                 let ghost q = it1.index@;
                 proof { assert(*hdr == hs[q]);
-                        crate::verif_lemmas::lemma_loop1_step(m, hs, ops, qs, q, m.contains_key(str_of(hs[q]@))); }
+                        if wf { crate::verif_lemmas::lemma_loop1_step(m, hs, ops, qs, q, m.contains_key(str_of(hs[q]@))); } }
+'''},
+         {'before': 'buffer.put(attr.to_bytes());', 'nth': 0, 'optional': True, 'text': '''
+                    proof { assert(m.contains_key(str_of(hdr@)) && m[str_of(hdr@)] == *attr); }
 '''},
          {'after': 'buffer.put(attr.to_bytes());', 'nth': 0, 'optional': True, 'text': '''
-                    proof {
-                        assert(m.contains_key(str_of(hdr@)) && m[str_of(hdr@)] == *attr);
+                    proof { if wf {
                         crate::verif_lemmas::lemma_keys_enc_push(m, ops, str_of(hdr@));
                         ops = ops.push(str_of(hdr@));
                         qs = qs.push(q);
-                    }'''},
+                    } }'''},
          {'loop': 1, 'where': 'before', 'text': '''let ghost ops1 = ops;
             #[verifier::prophetic]
             let ghost mut ps: Seq<int> = Seq::empty();
@@ -149,20 +155,20 @@ proof fn lemma_header_attrs_ok()
                 let ghost vks = iter_keys(it2.snapshot@.remaining());
                 proof {
                     assert(m.contains_key(vks[p]) && m[vks[p]] == *attr);
-                    crate::verif_lemmas::lemma_loop2_step(m, ops1, vks, ops, ps, p, target_rank(m[vks[p]].sname()) == 4);
+                    if wf { crate::verif_lemmas::lemma_loop2_step(m, ops1, vks, ops, ps, p, target_rank(m[vks[p]].sname()) == 4); }
                 }
 '''},
          {'after': 'buffer.put(attr.to_bytes());', 'nth': 1, 'optional': True, 'text': '''
-                    proof {
+                    proof { if wf {
                         crate::verif_lemmas::lemma_keys_enc_push(m, ops, vks[p]);
                         ops = ops.push(vks[p]);
                         ps = ps.push(p);
-                    }'''},
+                    } }'''},
          {'loop': 2, 'where': 'before', 'text': '''let ghost pre = buf_seq(&buffer);
-        proof {
+        proof { if wf {
             assert(i0 < gs.len() ==> key_perm(ops, gs[i0].sattrs()) && ranks_sorted(gs[i0].sattrs(), ops));
             assert(pre == s1(0x01) + (if i0 < gs.len() { keys_enc(gs[i0].sattrs(), ops, ops.len()) } else { Seq::<u8>::empty() }));
-        }
+        } }
 '''},
          {'loop': 2, 'where': 'body_start', 'text': '''
             broadcast use crate::verif_lemmas::group_ipp_attrs;
@@ -181,21 +187,21 @@ proof fn lemma_header_attrs_ok()
                 proof { assert(mg.contains_key(k) && mg[k] == *attr); }
 '''},
          {'loop': 3, 'where': 'body_end', 'text': '''
-                proof {
+                proof { if wf {
                     crate::verif_lemmas::lemma_keys_enc_push(mg, cur, k);
                     cur = cur.push(k);
                     assert(vks.take(vks.len() as int) =~= vks);
                     assert(it4.index@ + 1 == vks.len() ==> cur =~= vks);
-                }
+                } }
 '''},
          {'loop': 3, 'where': 'after', 'text': '''
-            proof {
+            proof { if wf {
                 assert(key_perm(cur, mg));
                 crate::verif_lemmas::lemma_others_enc_push(gs, others, (gi, cur));
                 others = others.push((gi, cur));
-            }
+            } }
 '''},
          {'before': 'buffer.freeze()', 'optional': True,
-          'text': 'proof { assert(attrs_enc_ok(gs, buf_seq(&buffer), ops, others)); }'},
+          'text': 'proof { if wf { assert(attrs_enc_ok(gs, buf_seq(&buffer), ops, others)); } }'},
      ]},
 ]
